@@ -546,6 +546,17 @@ class Calls(Exec):
             pass
         for r in spec['requires']:
             self.prove(st, self.eval_spec(st, r, fr), 'callback', node, 'callback contract: ' + r)
+        # effect of the callback as far as the contract describes it: frame + two-state postconditions
+        if spec.get('modifies') or spec.get('ensures'):
+            pre_cb = st.fork()
+            cbf = Frame(st.frame.module, st.frame.fnkey, parent=len(st.frames) - 1)
+            cbf.loc.update(zip(names, args))
+            for mexpr in spec.get('modifies', []):
+                self.havoc_target(st, mexpr, cbf, node)
+            old_cb = pre_cb.fork()
+            old_cb.frames.append(cbf.copy())
+            for e in spec.get('ensures', []):
+                st.assume(self.eval_spec(st, e, cbf, old=old_cb, assume=True))
         for upd in spec.get('ghost_update', []):
             name, expr = upd
             v = self.eval_spec_value(st, expr, fr)
@@ -916,6 +927,8 @@ class Calls(Exec):
             if args and isinstance(args[0], VStr):
                 return one(args[0])
             return one(self.make_fresh(st, ('str',), 'str'))
+        if name == 'list' and args and isinstance(args[0], VAny):
+            return one(VAny())
         if name == 'list':
             if not args:
                 return one(self.new_list(st, ('any',), [], node))
@@ -937,6 +950,11 @@ class Calls(Exec):
             return one(args[0])
         if name == 'print':
             return one(NONE)
+        if name in ('filter', 'map', 'zip', 'reversed', 'sorted', 'set'):
+            self.note('builtin %s(): opaque iterable (only iterated / passed on)' % name)
+            return one(VAny())
+        if name == 'list' and args and isinstance(args[0], VAny):
+            return one(VAny())
         raise Unsupported('builtin %s' % name, node)
 
     def int_str(self, st, t):
